@@ -4,6 +4,6 @@
 // them that is neither under contract nor pinned by name still makes this unit undecided, which sends the check to the
 // property's bounded sweep of the real code
 //@pinfile file=lrlex/src/lib/parser.rs sha=ee184a9fe8ea3991
-//@pinfile file=lrlex/src/lib/lexer.rs sha=448f544bab49b763
+//@pinfile file=lrlex/src/lib/lexer.rs sha=fd89bb00760c980b
 //@pinfile file=cfgrammar/src/lib/header.rs sha=8ea0aca562d3de28
 //@use prelude/tail.rs
